@@ -188,13 +188,15 @@ def build(uni):
                             "isinstance(node, LFRicLoop), "
                             "node._field_space is not None)")],
         ensures=[("coloured_or_safe",
-                  "isinstance(node, LFRicLoop) and (DISC(node) or "
+                  # from the property: an increment means colouring,
+                  # whatever space the *loop* is associated with (GH_INC is
+                  # only legal on continuous / unknown spaces)
+                  "isinstance(node, LFRicLoop) and ("
                   "node._loop_type == 'colour' or not HASINC(node))")],
         raises={"TransformationError": None}, modifies=[],
         covers=[("accept_colour", "node._loop_type == 'colour' and "
-                                  "HASINC(node) and not DISC(node)"),
-                ("accept_disc", "DISC(node) and HASINC(node)"),
-                ("accept_noinc", "not HASINC(node) and not DISC(node) and "
+                                  "HASINC(node)"),
+                ("accept_noinc", "not HASINC(node) and "
                                  "node._loop_type == ''"),
                 ("refuse", "raise:TransformationError")])
     uni.contracts["DynamoOMPParallelLoopTrans.validate"] = c
@@ -321,7 +323,10 @@ EXPLANATION = (
 
 def replay(name, ob, model, uni):
     from realise import C23 as R
-    return R.run()
+    rp = R.run()
+    if not rp.get("confirmed"):
+        rp = R.special_kernels()
+    return rp
 
 
 def replay_known(k, uni):
